@@ -41,6 +41,7 @@ NiShape* buildMesh(NifFile& nif, const std::vector<std::string>& f) {
 	}
 	return s;
 }
+void skinMesh(NifFile& nif, NiShape* shape, int nbones, uint64_t seed, int maxInfl);
 } // namespace vh
 
 namespace {
@@ -63,6 +64,28 @@ std::string run(const Args& a) {
 			shape = buildMesh(nif, f);
 			if (!shape)
 				return std::string("no-shape");
+			// mesh:…:<flags>:<nbones>[:<parts>] : skinned, with the partitions the bone limit gives (18 per partition for OB/FO3, 80
+			// for SSE) or <parts> explicit partitions of consecutive triangles
+			if (f.size() > 6 && std::stoi(f[6]) > 0) {
+				skinMesh(nif, shape, std::stoi(f[6]), std::stoull(f[4]) + 1, 4);
+				nif.UpdateSkinPartitions(shape);
+				int parts = f.size() > 7 ? std::stoi(f[7]) : 1;
+				uint32_t nt = shape->GetNumTriangles();
+				if (parts > 1 && nt > 0) {
+					NiVector<BSDismemberSkinInstance::PartitionInfo> info;
+					for (int k = 0; k < parts; ++k) {
+						BSDismemberSkinInstance::PartitionInfo pi;
+						pi.flags = PF_EDITOR_VISIBLE;
+						pi.partID = static_cast<uint16_t>(30 + k);
+						info.push_back(pi);
+					}
+					std::vector<int> labels(nt);
+					for (uint32_t k = 0; k < nt; ++k)
+						labels[k] = static_cast<int>(static_cast<uint64_t>(k) * static_cast<uint64_t>(parts) / nt);
+					nif.SetShapePartitions(shape, info, labels);
+					nif.UpdateSkinPartitions(shape);
+				}
+			}
 		}
 		std::string out = observeShape(nif, shape);
 		for (auto& lst : split(a[3], ';')) {
